@@ -5,16 +5,9 @@ from ..common import dec_val
 
 MODULE = "Genql.Properties.C05"
 LEAN_TARGETS = [MODULE]
-THEOREMS = [
-    "Genql.C05.less_irrefl",
-    "Genql.C05.less_trans",
-    "Genql.C05.less_incomp_trans",
-    "Genql.C05.sort_perm",
-    "Genql.C05.sort_sorted",
-    "Genql.C05.nulls_last",
-    "Genql.C05.window_exact",
-    "Genql.C05.window_never_fails",
-]
+THEOREMS = ["Genql.C05." + t for t in [
+    "lessKeys_eq_lessK", "less_irrefl", "less_trans", "less_incomp_trans", "lessK_swo", "nulls_last",
+    "sort_perm", "sort_sorted", "window_exact", "window_never_fails"]]
 TRUSTED = ["Go sort.Slice returns a permutation without inversions for a strict weak order (it is not stable: tie order "
            "is never compared)", "sqlparser"]
 RULE = ("random tables (0-10 rows) x key lists of 1-3 keys (ties, both directions; NULL keys only with a single key) compared by "
